@@ -18,6 +18,7 @@ CONSTANTS
 CONSTRAINT Bound
 VIEW View
 INVARIANT MonOk
+INVARIANT BusOk
 INVARIANT JobAlive
 INVARIANT NoSpin
 INVARIANT GivesUp
